@@ -176,6 +176,14 @@ func (f *Func) pruneFlagEdges(g *cfgx.Graph) {
 					apply(t.Lhs[i], t.Rhs[i], false)
 				}
 			}
+		case *ast.ValueSpec: // the graph holds one node per var spec
+			for i, nm := range t.Names {
+				if len(t.Values) == 0 {
+					apply(nm, nil, true)
+				} else if len(t.Values) == len(t.Names) {
+					apply(nm, t.Values[i], false)
+				}
+			}
 		case *ast.DeclStmt:
 			if gd, ok := t.Decl.(*ast.GenDecl); ok {
 				for _, sp := range gd.Specs {
@@ -265,5 +273,33 @@ func (f *Func) pruneFlagEdges(g *cfgx.Graph) {
 			e.To.Preds = preds
 		}
 		n.Succs = keep
+	}
+	// nodes that lost their last way in are dead: detach them, so that backward walks do not take them for entries
+	live := map[*cfgx.Node]bool{g.Entry: true}
+	work = []*cfgx.Node{g.Entry}
+	for len(work) > 0 {
+		n := work[len(work)-1]
+		work = work[:len(work)-1]
+		for _, e := range n.Succs {
+			if !live[e.To] {
+				live[e.To] = true
+				work = append(work, e.To)
+			}
+		}
+	}
+	for _, n := range g.Nodes {
+		if live[n] || len(n.Succs) == 0 {
+			continue
+		}
+		for _, e := range n.Succs {
+			var preds []*cfgx.Edge
+			for _, p := range e.To.Preds {
+				if p != e {
+					preds = append(preds, p)
+				}
+			}
+			e.To.Preds = preds
+		}
+		n.Succs = nil
 	}
 }
